@@ -18,7 +18,7 @@
 (* The process may stop after any prefix of these writes; unsynced freezer items may be     *)
 (* lost (any suffix above syn).  Reopen is written after loadLayers/loadJournal and         *)
 (* repairHistory.                                                                           *)
-EXTENDS PathDBHist
+EXTENDS PathDBHist, SequencesExt
 
 VARIABLES syn,      \* number of freezer items known to be synced to disk
           pt,       \* [tail, recs]: freezer tail known to be synced and the histories pruned since
@@ -50,12 +50,27 @@ CommitDur(s, p, j, y, o) ==
                               Dur(p.fin, j, id, SyncedPt(p.hist1))>> ELSE <<>>
   IN  a \o b \o c \o d \o e
 
+(* With asynchronous flushing the flush of layer k (sync freezer, state batch) runs in the     *)
+(* background while the next layer's history and id entries are already written (the next      *)
+(* commit only waits for it before freezing its own buffer): the durable states of layer k+1   *)
+(* before its flush may therefore also occur with the key-value state of before batch k       *)
+(* (lagged states).  They are listed ahead of the sequential ones (order is irrelevant for a   *)
+(* crash; the last element stays the final state).                                             *)
 RECURSIVE FlattenDur(_, _, _, _, _, _, _, _, _)
 FlattenDur(s, c, fs, force, sts, prevPid, j, y, o) ==
   IF fs = <<>> THEN <<>>
-  ELSE LET p  == CommitParts(s, c, Head(fs), force, IF Head(sts) THEN prevPid ELSE s.kv.pid)
-           q  == CommitDur(s, p, j, y, o)
-       IN  q \o FlattenDur(p.fin, c, Tail(fs), force, Tail(sts), s.kv.pid, j, q[Len(q)].syn, q[Len(q)].pt)
+  ELSE LET p   == CommitParts(s, c, Head(fs), force, IF Head(sts) THEN prevPid ELSE s.kv.pid)
+           q   == CommitDur(s, p, j, y, o)
+           y1  == q[Len(q)].syn
+           o1  == q[Len(q)].pt
+           lag == IF c.async /\ p.flush /\ Len(fs) > 1
+                  THEN LET p2 == CommitParts(p.fin, c, fs[2], force, IF sts[2] THEN s.kv.pid ELSE p.fin.kv.pid)
+                           q2 == CommitDur(p.fin, p2, j, y1, o1)
+                       IN  SetToSeq({[q2[n] EXCEPT !.kv = s.kv, !.syn = v, !.pt = o] :
+                                       n \in {m \in 1..Len(q2) : q2[m].kv = p.fin.kv /\ q2[m].syn = y1},
+                                       v \in {y, p.fin.disk.id}})
+                  ELSE <<>>
+       IN  lag \o q \o FlattenDur(p.fin, c, Tail(fs), force, Tail(sts), s.kv.pid, j, y1, o1)
 
 RECURSIVE RevertDur(_, _, _, _, _)
 RevertDur(s, r, j, y, o) ==
@@ -64,7 +79,6 @@ RevertDur(s, r, j, y, o) ==
        (IF s.bufN > 0 THEN <<>> ELSE <<Dur(n, j, y, o)>>) \o RevertDur(n, r, j, y, o)
 
 MinOf(a, b) == IF a < b THEN a ELSE b
-Last(q) == q[Len(q)]
 
 (* operation descriptors: [t |-> "U", j, d, fs] [t |-> "C", i, sts] [t |-> "R", w] [t |-> "J", i] *)
 OpDur(op) ==
